@@ -1,8 +1,121 @@
-"""pandas facade: real pandas; only what refuses object columns is added (DESIGN 1.3)."""
+"""pandas facade: real pandas; DataFrame/Series subclasses add groupby(key).mean() for symbolic (object) columns,
+which pandas refuses to aggregate (DESIGN 1.3).  Group keys are compared with == / < on the proxies, i.e. the
+engine decides them (constants of the form k*sqrt(q)*pi^a are compared exactly without the solver)."""
+import builtins
+
+import numpy as _np
 import pandas as _pd
+
+from . import scalar as S
+from .scalar import SR, SC, SB
+
+
+def _is_sym_frame(obj):
+    if isinstance(obj, _pd.DataFrame):
+        return builtins.any(dt == object for dt in obj.dtypes)
+    return obj.dtype == object
+
+
+class _SymGroupBy:
+    def __init__(self, obj, by):
+        self.obj = obj
+        if isinstance(by, _pd.Series):
+            self.keyname = by.name
+            keys = list(by.values)
+        elif isinstance(by, str):
+            self.keyname = by
+            keys = list(obj[by].values)
+        else:
+            raise S.SymbolicLeak("groupby key kind not modelled")
+        groups = []     # (key, [row positions])
+        for pos, k in enumerate(keys):
+            for g in groups:
+                if builtins.bool(g[0] == k):
+                    g[1].append(pos)
+                    break
+            else:
+                groups.append((k, [pos]))
+        # pandas sorts group keys ascending (insertion sort with symbolic comparisons)
+        srt = []
+        for g in groups:
+            i = 0
+            while i < len(srt) and builtins.bool(srt[i][0] < g[0]):
+                i += 1
+            srt.insert(i, g)
+        self.groups = srt
+
+    def _mean_of(self, values, rows):
+        tot = 0
+        for r in rows:
+            tot = tot + values[r]
+        return tot / len(rows)
+
+    def mean(self):
+        keys = [g[0] for g in self.groups]
+        idx = _pd.Index(_np.array(keys, dtype=object), name=self.keyname)
+        if isinstance(self.obj, _pd.DataFrame):
+            data = {}
+            for c in self.obj.columns:
+                if c == self.keyname:
+                    continue
+                vals = self.obj[c].values
+                data[c] = _np.array([self._mean_of(vals, g[1]) for g in self.groups], dtype=object)
+            return SDataFrame(data, index=idx)
+        vals = self.obj.values
+        return SSeries(_np.array([self._mean_of(vals, g[1]) for g in self.groups], dtype=object), index=idx, name=self.obj.name)
+
+
+class SSeries(_pd.Series):
+    @property
+    def _constructor(self):
+        return SSeries
+
+    @property
+    def _constructor_expanddim(self):
+        return SDataFrame
+
+    def groupby(self, by=None, *a, **k):
+        if _is_sym_frame(self) or (isinstance(by, _pd.Series) and by.dtype == object):
+            return _SymGroupBy(self, by)
+        return _pd.Series.groupby(self, by, *a, **k)
+
+    def round(self, decimals=0, *a, **k):
+        if self.dtype == object:
+            return self.copy()
+        return _pd.Series.round(self, decimals, *a, **k)
+
+
+class SDataFrame(_pd.DataFrame):
+    @property
+    def _constructor(self):
+        return SDataFrame
+
+    @property
+    def _constructor_sliced(self):
+        return SSeries
+
+    def groupby(self, by=None, *a, **k):
+        if _is_sym_frame(self) or (isinstance(by, _pd.Series) and by.dtype == object):
+            return _SymGroupBy(self, by)
+        return _pd.DataFrame.groupby(self, by, *a, **k)
+
+    def round(self, decimals=0, *a, **k):
+        if _is_sym_frame(self):
+            return self.copy()      # decimal rounding is the identity in the real-number model (stated deviation)
+        return _pd.DataFrame.round(self, decimals, *a, **k)
+
+    def to_csv(self, path_or_buf=None, *a, **k):
+        RECORD["to_csv"].append((path_or_buf, self.copy()))
+        return None
+
+
+RECORD = {"to_csv": []}
 
 
 class _Facade:
+    DataFrame = SDataFrame
+    Series = SSeries
+
     def __getattr__(self, name):
         return getattr(_pd, name)
 
